@@ -34,6 +34,181 @@ fn hist_line(ct: &CircuitText, shots: usize, seed: u64, repr: &str) -> Option<(S
     Some((req, ans))
 }
 
+fn hist_text(circuit: &q1tsim::circuit::Circuit, run: &Run) -> String
+{
+    match (&run.result, &run.final_cstate)
+    {
+        (Some(Ok(())), Some(cs)) => {
+            let mut h: BTreeMap<u64, usize> = BTreeMap::new();
+            for &w in cs.iter() { *h.entry(w).or_insert(0) += 1; }
+            let mut s = format!("ok {}", h.len());
+            for (w, c) in h.iter() { s += &format!(" {} {}", w, c); }
+            if let Ok(lib) = circuit.histogram()
+            {
+                let mut l: Vec<(u64, usize)> = lib.iter().map(|(k, v)| (*k, *v)).collect();
+                l.sort();
+                let hv: Vec<(u64, usize)> = h.iter().map(|(k, v)| (*k, *v)).collect();
+                if l != hv { s += " HISTOGRAM-VIEW-DIFFERS"; }
+            }
+            s
+        },
+        (Some(Err(e)), _) => show_err(e),
+        _ => "panic".to_string()
+    }
+}
+
+/// "Executed again on the same object": the circuit is executed once (other seed, representation `first_repr`, the SAME
+/// number of shots), then executed again with `seed` on the SAME `Circuit` object; the histogram of the SECOND run must be
+/// a Born sample of the circuit just like that of a first run (`execute*` clears quantum and classical state).
+fn again_line(ct: &CircuitText, shots: usize, seed: u64, repr: &str, first_repr: &str) -> Option<(String, String)>
+{
+    let mut circuit = build(ct).ok()?;
+    let first_seed = seed ^ 0x5DEECE66D;
+    let first = execute_traced(&mut circuit, ct.nq, shots, first_seed, first_repr);
+    if !matches!(first.result, Some(Ok(()))) { return None; }
+    let run = execute_traced(&mut circuit, ct.nq, shots, seed, repr);
+    let req = format!("again | {} | {} | {} | {} | first {} {} | {}", repr, ct.nq, shots, seed, first_repr, first_seed, ct.ops.join(" ; "));
+    Some((req, hist_text(&circuit, &run)))
+}
+
+/// ONE object executed `reps` times with `n` shots each (so every execution after the first finds the register of the
+/// previous one, of the same length): distribution of the sorted register over the executions
+fn tuples_again_line(ct: &CircuitText, n: usize, reps: usize, seed0: u64, repr: &str) -> Option<(String, String)>
+{
+    let mut h: BTreeMap<String, usize> = BTreeMap::new();
+    let mut circuit = build(ct).ok()?;
+    for r in 0..reps
+    {
+        let run = execute_traced(&mut circuit, ct.nq, n, seed0.wrapping_add(r as u64), repr);
+        let key = match (&run.result, &run.final_cstate)
+        {
+            (Some(Ok(())), Some(cs)) => { let mut v = cs.clone(); v.sort(); v.iter().map(|w| w.to_string()).collect::<Vec<_>>().join(",") },
+            (Some(Err(e)), _) => show_err(e).replace(' ', "_"),
+            _ => "panic".to_string()
+        };
+        *h.entry(key).or_insert(0) += 1;
+    }
+    let req = format!("tuples-again | {} | {} | {} | {} | {} | {}", repr, ct.nq, n, reps, seed0, ct.ops.join(" ; "));
+    let mut s = format!("ok {}", h.len());
+    for (k, c) in h.iter() { s += &format!(" {} {}", k, c); }
+    Some((req, s))
+}
+
+/// a user-defined gate term (see harness/src/gate.rs) on `k` qubits, bare or inside the library's combinators
+fn gen_user_term(k: usize, rng: &mut SplitMix64) -> String
+{
+    let mix = |rng: &mut SplitMix64| format!("Mix {}", fbits(*rng.pick(&[std::f64::consts::FRAC_PI_4, std::f64::consts::FRAC_PI_6, 1.0, -0.7, 2.5])));
+    match k
+    {
+        2 => match rng.below(6)
+        {
+            0 | 1 => "Inc2".to_string(),
+            2 | 3 => mix(rng),
+            4 => format!("Comp u{} 2 2 {} 2 {} H 1 {}", rng.below(10), if rng.coin() { "Inc2".to_string() } else { mix(rng) }, if rng.coin() { "0 1" } else { "1 0" }, rng.below(2)),
+            _ => format!("Loop l{} {} u{} 2 1 {} 2 {}", rng.below(10), 1 + rng.below(3), rng.below(10), if rng.coin() { "Inc2".to_string() } else { mix(rng) }, if rng.coin() { "0 1" } else { "1 0" }),
+        },
+        3 => match rng.below(6)
+        {
+            0 | 1 => "Inc3".to_string(),
+            2 => format!("C {}", if rng.coin() { "Inc2".to_string() } else { mix(rng) }),
+            3 => format!("Kron {} {}", if rng.coin() { "Inc2".to_string() } else { mix(rng) }, rng.pick(&["X", "H", "T"])),
+            4 => format!("Kron {} {}", rng.pick(&["X", "H", "S"]), if rng.coin() { "Inc2".to_string() } else { mix(rng) }),
+            _ => { let mut b = vec![0usize, 1, 2]; rng.shuffle(&mut b); format!("Comp u{} 3 2 Inc3 3 {} {} 2 {} {}", rng.below(10), join(&b), mix(rng), b[2], b[0]) },
+        },
+        _ => match rng.below(4)
+        {
+            0 => "Inc4".to_string(),
+            1 => "C Inc3".to_string(),
+            2 => "Kron Inc3 H".to_string(),
+            _ => { let mut b = vec![0usize, 1, 2, 3]; rng.shuffle(&mut b); format!("Comp u{} 4 2 X 1 {} Inc3 3 {} {} {}", rng.below(10), b[3], b[1], b[2], b[0]) },
+        }
+    }
+}
+
+/// Circuits with USER-DEFINED gates (non-symmetric matrices, default kernels of the `Gate` trait), applied under a classical
+/// condition (single-vector route) and unconditionally (matrix route) to superposed / entangled qubits.
+fn gen_user_circuit(rng: &mut SplitMix64) -> CircuitText
+{
+    let nq = 3 + rng.below(3) as usize;           // one qubit feeds the condition, the gate acts on 2..4 of the others
+    let nc = nq;
+    let cq = rng.below(nq as u64) as usize;
+    let others: Vec<usize> = (0..nq).filter(|q| *q != cq).collect();
+    let mut ops: Vec<String> = vec![];
+    // condition bit: always 1 (X; measure) or a coin (H; measure)
+    ops.push(format!("gate 1 {} {}", cq, if rng.below(3) == 0 { "H" } else { "X" }));
+    ops.push(format!("measure {} {} Z", cq, cq));
+    // superpose / entangle the others (among them (|01> + |10>)/sqrt 2, on which Mix and its transpose differ)
+    for &q in others.iter() { match rng.below(4) { 0 => ops.push(format!("gate 1 {} X", q)), 1 | 2 => ops.push(format!("gate 1 {} H", q)),
+        _ => ops.push(format!("gate 1 {} RY {}", q, fbits(0.3 + rng.unit() * 2.0))) } }
+    if rng.below(2) == 0
+    {
+        let (a, b) = (others[0], others[1]);
+        ops.push(format!("gate 2 {} {} CX", a, b));
+        if rng.coin() { ops.push(format!("gate 1 {} X", b)); }
+    }
+    for _ in 0..(1 + rng.below(2))
+    {
+        let k = 2 + rng.below((others.len() - 1).min(3) as u64) as usize;
+        let mut bits = others.clone(); rng.shuffle(&mut bits); bits.truncate(k);
+        let term = gen_user_term(k, rng);
+        if rng.below(5) == 0 { ops.push(format!("gate {} {} {}", k, join(&bits), term)); }
+        else { ops.push(format!("cond 1 {} 1 {} {} {}", cq, k, join(&bits), term)); }
+    }
+    for &q in others.iter() { ops.push(format!("measure {} {} {}", q, q, if rng.below(3) == 0 { gen_basis(rng) } else { "Z" })); }
+    CircuitText { nq, nc, ops }
+}
+
+/// User-defined cyclic increments on basis states, under a fulfilled classical condition: the only register value of non-zero
+/// probability is computed here with integer arithmetic (independent of the library AND of the Lean reference).
+fn perm_line(rng: &mut SplitMix64) -> (String, String)
+{
+    let k = 2 + rng.below(3) as usize;
+    let nq = k + 1 + rng.below(2) as usize;
+    let cq = rng.below(nq as u64) as usize;
+    let mut others: Vec<usize> = (0..nq).filter(|q| *q != cq).collect();
+    rng.shuffle(&mut others);
+    let bits: Vec<usize> = others[..k].to_vec();
+    let mut val = vec![false; nq];
+    let mut ops: Vec<String> = vec![format!("gate 1 {} X", cq), format!("measure {} {} Z", cq, cq)];
+    val[cq] = true;
+    for &q in others.iter() { if rng.coin() { ops.push(format!("gate 1 {} X", q)); val[q] = true; } }
+    for _ in 0..(1 + rng.below(3))
+    {
+        let times = 1 + rng.below(2) as usize;
+        let wrapped = rng.below(3) == 0;
+        let term = if wrapped { format!("Loop l {} u {} 1 Inc{} {} {}", times, k, k, k, join(&(0..k).collect::<Vec<_>>())) } else { format!("Inc{}", k) };
+        ops.push(format!("cond 1 {} 1 {} {} {}", cq, k, join(&bits), term));
+        for _ in 0..(if wrapped { times } else { 1 })
+        {
+            let mut v = 0usize;
+            for &b in bits.iter() { v = (v << 1) | (val[b] as usize); }
+            v = (v + 1) % (1 << k);
+            for (j, &b) in bits.iter().enumerate() { val[b] = (v >> (k - 1 - j)) & 1 == 1; }
+        }
+    }
+    let mut expect = 0u64;
+    for q in 0..nq { ops.push(format!("measure {} {} Z", q, q)); if val[q] { expect |= 1 << q; } }
+    let ct = CircuitText { nq, nc: nq, ops };
+    let (shots, seed) = (5, rng.next());
+    let repr = if rng.coin() { "vector" } else { "auto" };
+    let req = format!("perm | {} | {} | {} | {} | {}", repr, nq, shots, seed, ct.ops.join(" ; "));
+    let ans = match build(&ct)
+    {
+        Err(e) => format!("build-{}", show_err(&e)),
+        Ok(mut circuit) => {
+            let run = execute_traced(&mut circuit, nq, shots, seed, repr);
+            match (&run.result, &run.final_cstate)
+            {
+                (Some(Ok(())), Some(cs)) => if cs.iter().all(|w| *w == expect) { "same".to_string() }
+                    else { format!("differs only-possible-value={} register={}", expect, join(cs)) },
+                (Some(Err(e)), _) => show_err(e),
+                _ => "panic".to_string()
+            }
+        }
+    };
+    (req, ans)
+}
+
 /// `reps` independent executions with `n` shots each: distribution of the sorted register
 fn tuples_line(ct: &CircuitText, n: usize, reps: usize, seed0: u64, repr: &str) -> Option<(String, String)>
 {
@@ -167,6 +342,36 @@ fn main()
         let seed = rng.next();
         for repr in ["stabilizer", "vector"].iter() { if let Some((r, a)) = hist_line(&ct, shots, seed, repr) { out.case(&r, &a); } }
     }
+    // executed AGAIN on the same object (same shot count): the second run must be a fresh Born sample as well
+    for i in 0..ncirc
+    {
+        let ct = gen_feedback_circuit(&mut rng, i % 3 != 2);
+        let seed = rng.next();
+        if i % 3 == 2
+        {
+            if let Some((r, a)) = again_line(&ct, shots, seed, ["vector", "auto"][i % 2], "vector") { out.case(&r, &a); }
+        }
+        else
+        {
+            let repr = ["stabilizer", "vector", "auto"][(i / 3) % 3];
+            let first = if i % 4 == 0 { ["vector", "stabilizer"][(i / 4) % 2] } else { repr };
+            if let Some((r, a)) = again_line(&ct, shots, seed, repr, first) { out.case(&r, &a); }
+        }
+        if i % 3 == 0 { if let Some((r, a)) = tuples_again_line(&ct, 2, shots / 4, seed, ["stabilizer", "vector"][(i / 3) % 2]) { out.case(&r, &a); } }
+        // ... and the randomly generated circuits of fragment F
+        let (cfg, repr) = if i % 2 == 0 { (&cfg_v, "vector") } else { (&cfg_s, ["stabilizer", "auto"][(i / 2) % 2]) };
+        let ct = gen_circuit(cfg, &mut rng);
+        let seed = rng.next();
+        if let Some((r, a)) = again_line(&ct, shots, seed, repr, repr) { out.case(&r, &a); }
+    }
+    // user-defined gates (only matrix() provided, non-symmetric matrices) under classical conditions, vector backend
+    for i in 0..(if thorough() { 150 } else { 40 })
+    {
+        let ct = gen_user_circuit(&mut rng);
+        let seed = rng.next();
+        if let Some((r, a)) = hist_line(&ct, shots, seed, ["vector", "auto"][i % 2]) { out.case(&r, &a); }
+    }
+    for _ in 0..(if thorough() { 400 } else { 80 }) { let (r, a) = perm_line(&mut rng); out.case(&r, &a); }
     // wide registers: the only possible register value is known classically
     for _ in 0..(if thorough() { 400 } else { 80 }) { let (r, a) = wide_line(&mut rng); out.case(&r, &a); }
     // witnesses of the known defects (request kind prefixed with `w:<finding>`)
